@@ -59,7 +59,7 @@ static void intfmt_exhaustive(void) {
 
 void dom_intfmt(void) {
     unsigned w, sgn, bi, len; int k; uint64_t n;
-    if (h_thorough) intfmt_exhaustive();
+    if (h_exhaustive) intfmt_exhaustive();
     /* boundary values: 0, 1, powers of each base and neighbours, sign boundaries, all ones */
     for (w = 32; w <= 64; w += 32) {
         uint64_t top = w == 32 ? 0xFFFFFFFFull : ~0ull;
